@@ -2,10 +2,11 @@ import ScnrVerif.Model.DotText
 /-!
 # Round trip of the DOT text layer (C18)
 
-`Model/DotText.lean` brings the text of a DOT file into the model: `lexDot`/`parseDot` (port of the
-harness' strict DOT-subset parser `dotparse.rs`), `decodeDot` (its `decode`, applied to the main
-graph and to every cluster as the harness does) and `renderDot` (the text `compiled_dfa_render`
-writes through `dot-writer`). This file proves
+`Model/DotText.lean` brings the text of a DOT file into the model: `lexDot`/`parseDot` (lexer and
+parser for the DOT language as far as it can occur in pictures of automata), `decodeDot` (the
+extraction of nodes, edges and clusters, as the harness' `dotparse.rs::decode` does, but lenient
+about cosmetics) and `renderDot` (the text `compiled_dfa_render` writes through `dot-writer`).
+This file proves
 
 * `decodeDot_parseDot_renderDot`: for every well-formed document (`DotDoc.textOK`) and string-safe
   title / class texts (`strSafe`), `(parseDot (renderDot title edgeText d)).bind decodeDot = some d`;
@@ -14,14 +15,16 @@ writes through `dot-writer`). This file proves
   another number; token types only on accepting nodes), and
   `decodeDot_parseDot_renderDot_dotDoc` instantiates it to the documents `dotDoc M` of
   `Model/Dot.lean` / `Props/C18.lean`, for every mode `M`;
-* `parseDot_wellformed_only`: malformed texts are rejected;
+* `parseDot_wellformed_only`: malformed texts are rejected; `parseDot_accepts`,
+  `decodeDot_chain_and_blocks`: the grammar beyond the layout of the crate's writer (comments,
+  `strict`, graph IDs, case-insensitive keywords, optional `;`, attribute lists, numerals, blocks
+  and subgraphs, edge chains, default attributes);
 * non-vacuity: a literal document with five nodes and a cluster (`exText_decodes`,
   `exDoc_renders`, `exDoc_roundtrip`) and the real file `example1.dot` (`example1_decodes`,
   `example1_renders`: `renderDot` reproduces it character by character);
-* leniency: restyled variants of the literal document (other colours and shapes, extra attributes,
-  extra graph statements, default-attribute statements) decode to the same document
-  (`exRestyled_decodes`, `exDefaults_decodes`); what is not cosmetic is still checked
-  (`decodeDot_still_strict`);
+* leniency: restyled and rewritten variants of the literal document decode to the same document
+  (`exRestyled_decodes`, `exDefaults_decodes`, `exRewritten_decodes`); what is not cosmetic is
+  still checked (`decodeDot_still_strict`);
 * `pStmts_fuel` / `parseToks_fuel`: the fuel of the parser (number of tokens) is never exhausted:
   any larger amount gives the same result.
 
@@ -29,10 +32,39 @@ The proof is layered: characters → tokens (`lexDot_renderDot`, built from "rem
 `lexRun_scan` / `Lexes.append`), tokens → statements (`parseToks_docToks`, built from `ParsesTo`),
 statements → document (`decodeDot_docStmts`).
 
-Where the Lean functions deliberately differ from `dotparse.rs`:
-1. `char::is_alphanumeric` is ASCII-only here (`isIdChar`); outside of quoted strings a non-ASCII
-   letter/digit is an error here and part of an identifier there. The crate writes non-ASCII text
-   only inside quoted strings, where every character is accepted by both.
+## What is accepted (see the grammar in `Model/DotText.lean`)
+
+Lexer: whitespace (blank, tab, LF, VT, FF, CR); comments `/* .. */`, `// ..`, lines whose first
+character is `#`; identifiers `[A-Za-z_\x80-][A-Za-z_0-9\x80-]*` (every code point from 0x80 on is
+a letter); numerals `-?(\.[0-9]+|[0-9]+(\.[0-9]*)?)`; quoted strings (a backslash takes the next
+character with it; the raw content is kept); `{ } [ ] = , ;` and `->`.
+Parser: `[strict] digraph [ID] { stmt_list }`, exactly one per file; statements `ID = ID`,
+`(graph|node|edge) attr_list`, `ID (-> ID)* [attr_list]`, `[subgraph [ID]] { stmt_list }`, each
+optionally followed by one `;`; attribute lists `[ID = ID ...]` with `,`, `;` or nothing between
+entries, possibly empty, possibly several in a row; keywords in any case; keywords are not IDs.
+
+## What is rejected although Graphviz accepts it (deliberately outside of the subset)
+
+undirected graphs (`graph`, `--`), ports (`a:p`), HTML strings (`<...>`), subgraphs as edge
+endpoints (`{a b} -> c`), `+` concatenation of strings, a numeral directly followed by a letter or
+a second dot (`3abc`, `1.2.3`: Graphviz splits them with a warning), a `.` inside a bare
+identifier, `\`-newline line continuation inside strings (the two characters stay in the raw
+content), `#` lines that start with blanks.
+
+## What is undecodable (well-formed, but not a picture of an automaton)
+
+a node whose name is not `<prefix><number>` or that has no `label`, a label that is neither
+`<id> T<tid>` nor `<id>`, an edge without `label` or without trailing `(C#<n>)`, a cluster (a
+subgraph whose name starts with `cluster`) whose label (`label = ..` or `graph [label = ..]`) is
+not `LA for T<tid>(Pos|Neg)`. Blocks and non-cluster subgraphs only group: their nodes and edges
+belong to the enclosing graph (their attribute statements are scoped and ignored); clusters
+inside clusters are ignored.
+
+## Differences from `dotparse.rs`
+
+1. The grammar is the DOT grammar above, a superset of what `dotparse.rs` accepts, except: `.`
+   inside bare identifiers (`a.b`), Unicode whitespace outside of strings (now letters), keywords
+   used as names (`node = x`, `digraph node {`), which are rejected now.
 2. `parse::<usize>` has no overflow check here (`parseNat` is unbounded; the optional leading `+`
    and leading zeros are accepted as in Rust).
 3. `decode` sorts nodes and edges, the harness sorts clusters by token type (it compares pictures as
@@ -44,10 +76,8 @@ Where the Lean functions deliberately differ from `dotparse.rs`:
    else the label must be `"<id>"` and node 0 is the start node) and ignores `shape`, `color`,
    `penwidth` and unknown attributes; `decode` reads the kind from `color` (blue/red/none, any
    other colour an error).
-6. The parser also accepts `node [..];`, `edge [..];`, `graph [..];` (`DStmt.dflt`, ignored by
-   `decodeDot`); `dotparse.rs` rejects them.
-7. The loops of `lex` are one state machine (`lexStep`/`lexRun`) instead of nested loops; the
-   recursion of `P::body` is bounded by fuel, which `pStmts_fuel` shows to be immaterial.
+6. The lexer is one state machine (`lexStep`/`lexRun`); the recursion of the parser is bounded by
+   fuel, which `pStmts_fuel` shows to be immaterial.
 -/
 namespace Scnr
 
@@ -248,9 +278,9 @@ theorem Lexes.append {st st1 st2 : LexSt} {a b : List Nat} {ta tb : List DTok}
         rw [ih hr]
         simp [List.append_assoc]
 
-theorem lexDot_of_lexes {a : List Nat} {ts : List DTok} (h : Lexes .top a ts .top) :
+theorem lexDot_of_lexes {a : List Nat} {ts : List DTok} (h : Lexes .bol a ts .bol) :
     lexDot a = some ts := by
-  have := lexRun_scan a [] .top [] ts .top h
+  have := lexRun_scan a [] .bol [] ts .bol h
   simp only [List.append_nil] at this
   rw [lexDot, this]
   simp [lexRun, lexFinish]
@@ -288,9 +318,9 @@ theorem lexScan_str (s : List Nat) : ∀ acc : List Nat,
 theorem lexes_quoted {s : List Nat} (h : strSafe s = true) : Lexes .top (quoted s) [.str s] .top := by
   unfold Lexes quoted
   have := (lexScan_str s []).1 h
-  simp only [lexScan, lexStep, stepTop]
-  simp only [show isWs 34 = false by decide, if_true, Bool.false_eq_true, if_false]
-  rw [this]; simp
+  have h0 : lexStep .top 34 = some ([], .inStr []) := by decide
+  simp only [lexScan, h0, this, List.nil_append]
+  rfl
 
 /-- identifier characters extend the identifier being read -/
 theorem lexScan_idChars (ds : List Nat) (h : ∀ c ∈ ds, isIdChar c = true) : ∀ acc : List Nat,
@@ -305,8 +335,7 @@ theorem lexScan_idChars (ds : List Nat) (h : ∀ c ∈ ds, isIdChar c = true) : 
     simp
 
 theorem idChar_of_digit {c : Nat} (h : isDigit c = true) : isIdChar c = true := by
-  simp [isDigit] at h
-  simp [isIdChar]; omega
+  simp [isIdChar, h]
 
 /-! ## The tokens of a rendered document -/
 
@@ -388,13 +417,13 @@ theorem lexes_nodeAttrs (n : DNode) : Lexes .top (renderNodeAttrs n) (nodeAttrTo
       exact (Lexes.of_eq (st := .top) (st' := .top) (a := txtLabelEq) (ts := [.id kwLabel, .eq]) (by decide)).append
         (lexes_quoted (strSafe_of_plain (plain_natDigits n.id)))
 
-theorem lexes_node {ind pre : List Nat} (hind : Lexes .top ind [] .top) (hpre : Plain pre) (n : DNode) :
-    Lexes .top (renderNode ind pre n) (nodeToks pre n) .top := by
+theorem lexes_node {ind pre : List Nat} (hind : Lexes .bol ind [] .top) (hpre : Plain pre) (n : DNode) :
+    Lexes .bol (renderNode ind pre n) (nodeToks pre n) .bol := by
   unfold renderNode
   have h := (((hind.append (lexes_quoted (plain_name pre hpre n.id))).append
     (Lexes.of_eq (st := .top) (st' := .top) (a := [32, 91]) (ts := [.lbrack]) (by decide))).append
     (lexes_nodeAttrs n)).append
-    (Lexes.of_eq (st := .top) (st' := .top) (a := [93, 59, 10]) (ts := [.rbrack, .semi]) (by decide))
+    (Lexes.of_eq (st := .top) (st' := .bol) (a := [93, 59, 10]) (ts := [.rbrack, .semi]) (by decide))
   simpa [nodeToks] using h
 
 theorem strSafe_edgeLabel (edgeText : Nat → List Nat) (he : ∀ cc, strSafe (edgeText cc) = true) (e : DEdge) :
@@ -406,9 +435,9 @@ theorem strSafe_edgeLabel (edgeText : Nat → List Nat) (he : ∀ cc, strSafe (e
   have := strSafe_append_plain (he e.cc) hp
   simpa [List.append_assoc] using this
 
-theorem lexes_edge {ind pre : List Nat} (hind : Lexes .top ind [] .top) (hpre : Plain pre)
+theorem lexes_edge {ind pre : List Nat} (hind : Lexes .bol ind [] .top) (hpre : Plain pre)
     (edgeText : Nat → List Nat) (he : ∀ cc, strSafe (edgeText cc) = true) (e : DEdge) :
-    Lexes .top (renderEdge ind pre edgeText e) (edgeToks pre edgeText e) .top := by
+    Lexes .bol (renderEdge ind pre edgeText e) (edgeToks pre edgeText e) .bol := by
   unfold renderEdge
   have h := ((((((hind.append (lexes_quoted (plain_name pre hpre e.src))).append
     (Lexes.of_eq (st := .top) (st' := .top) (a := [32, 45, 62, 32]) (ts := [.arrow]) (by decide))).append
@@ -416,25 +445,25 @@ theorem lexes_edge {ind pre : List Nat} (hind : Lexes .top ind [] .top) (hpre : 
     (Lexes.of_eq (st := .top) (st' := .top) (a := [32, 91]) (ts := [.lbrack]) (by decide))).append
     (Lexes.of_eq (st := .top) (st' := .top) (a := txtLabelEq) (ts := [.id kwLabel, .eq]) (by decide))).append
     (lexes_quoted (strSafe_edgeLabel edgeText he e))).append
-    (Lexes.of_eq (st := .top) (st' := .top) (a := [93, 59, 10]) (ts := [.rbrack, .semi]) (by decide))
+    (Lexes.of_eq (st := .top) (st' := .bol) (a := [93, 59, 10]) (ts := [.rbrack, .semi]) (by decide))
   simpa [edgeToks, edgeLabel] using h
 
-theorem lexes_nodes {ind pre : List Nat} (hind : Lexes .top ind [] .top) (hpre : Plain pre) (ns : List DNode) :
-    Lexes .top (renderNodes ind pre ns) (nodesToks pre ns) .top := by
+theorem lexes_nodes {ind pre : List Nat} (hind : Lexes .bol ind [] .top) (hpre : Plain pre) (ns : List DNode) :
+    Lexes .bol (renderNodes ind pre ns) (nodesToks pre ns) .bol := by
   induction ns with
   | nil => exact Lexes.of_eq rfl
   | cons n r ih => exact (lexes_node hind hpre n).append ih
 
-theorem lexes_edges {ind pre : List Nat} (hind : Lexes .top ind [] .top) (hpre : Plain pre)
+theorem lexes_edges {ind pre : List Nat} (hind : Lexes .bol ind [] .top) (hpre : Plain pre)
     (edgeText : Nat → List Nat) (he : ∀ cc, strSafe (edgeText cc) = true) (es : List DEdge) :
-    Lexes .top (renderEdges ind pre edgeText es) (edgesToks pre edgeText es) .top := by
+    Lexes .bol (renderEdges ind pre edgeText es) (edgesToks pre edgeText es) .bol := by
   induction es with
   | nil => exact Lexes.of_eq rfl
   | cons e r ih => exact (lexes_edge hind hpre edgeText he e).append ih
 
-theorem lexes_graph {ind pre : List Nat} (hind : Lexes .top ind [] .top) (hpre : Plain pre)
+theorem lexes_graph {ind pre : List Nat} (hind : Lexes .bol ind [] .top) (hpre : Plain pre)
     (edgeText : Nat → List Nat) (he : ∀ cc, strSafe (edgeText cc) = true) (g : DGraph) :
-    Lexes .top (renderGraph ind pre edgeText g) (graphToks pre edgeText g) .top :=
+    Lexes .bol (renderGraph ind pre edgeText g) (graphToks pre edgeText g) .bol :=
   (lexes_nodes hind hpre g.nodes).append (lexes_edges hind hpre edgeText he g.edges)
 
 theorem plain_clusterPre (c : DCluster) : Plain (clusterPre c) :=
@@ -451,29 +480,32 @@ theorem plain_clusterLabelText (c : DCluster) : Plain (clusterLabelText c) := by
 
 theorem lexes_cluster (edgeText : Nat → List Nat) (he : ∀ cc, strSafe (edgeText cc) = true)
     (k : Nat) (c : DCluster) :
-    Lexes .top (renderCluster edgeText k c) (clusterToks edgeText k c) .top := by
+    Lexes .bol (renderCluster edgeText k c) (clusterToks edgeText k c) .bol := by
   unfold renderCluster
   have hk : Lexes (.inId kwClusterPre.reverse) (natDigits k) []
       (.inId ((natDigits k).reverse ++ kwClusterPre.reverse)) :=
     lexScan_idChars _ (fun x hx => idChar_of_digit (natDigits_digit k x hx)) _
   have hopen : Lexes (.inId ((natDigits k).reverse ++ kwClusterPre.reverse)) [32, 123, 10]
-      [.id (kwClusterPre ++ natDigits k), .lbrace] .top := by
+      [.id (kwClusterPre ++ natDigits k), .lbrace] .bol := by
     unfold Lexes
-    simp [lexScan, lexStep, stepTop, isIdChar, isWs, punct]
-  have hind4 : Lexes .top ind4 [] .top := Lexes.of_eq (by decide)
-  have h := ((((((Lexes.of_eq (st := .top) (st' := .inId kwClusterPre.reverse)
+    have e1 : ∀ acc, lexStep (.inId acc) 32 = some ([.id acc.reverse], .top) := fun _ => rfl
+    have e2 : lexStep .top 123 = some ([.lbrace], .top) := by decide
+    have e3 : lexStep .top 10 = some ([], .bol) := by decide
+    simp [lexScan, e1, e2, e3]
+  have hind4 : Lexes .bol ind4 [] .top := Lexes.of_eq (by decide)
+  have h := ((((((Lexes.of_eq (st := .bol) (st' := .inId kwClusterPre.reverse)
       (a := ind2 ++ kwSubgraph ++ [32] ++ kwClusterPre) (ts := [.id kwSubgraph]) (by decide)).append hk).append
     hopen).append
-    (Lexes.of_eq (st := .top) (st' := .top) (a := ind4 ++ txtLabelEq) (ts := [.id kwLabel, .eq]) (by decide))).append
+    (Lexes.of_eq (st := .bol) (st' := .top) (a := ind4 ++ txtLabelEq) (ts := [.id kwLabel, .eq]) (by decide))).append
     (lexes_quoted (strSafe_of_plain (plain_clusterLabelText c)))).append
-    (Lexes.of_eq (st := .top) (st' := .top) (a := [59, 10]) (ts := [.semi]) (by decide))).append
+    (Lexes.of_eq (st := .top) (st' := .bol) (a := [59, 10]) (ts := [.semi]) (by decide))).append
     ((lexes_graph hind4 (plain_clusterPre c) edgeText he c.g).append
-      (Lexes.of_eq (st := .top) (st' := .top) (a := ind2 ++ [125, 10]) (ts := [.rbrace]) (by decide)))
+      (Lexes.of_eq (st := .bol) (st' := .bol) (a := ind2 ++ [125, 10]) (ts := [.rbrace]) (by decide)))
   simpa [clusterToks, clusterPre, List.append_assoc] using h
 
 theorem lexes_clusters (edgeText : Nat → List Nat) (he : ∀ cc, strSafe (edgeText cc) = true)
     (cs : List DCluster) : ∀ k,
-    Lexes .top (renderClusters edgeText k cs) (clustersToks edgeText k cs) .top := by
+    Lexes .bol (renderClusters edgeText k cs) (clustersToks edgeText k cs) .bol := by
   induction cs with
   | nil => intro k; exact Lexes.of_eq rfl
   | cons c r ih => intro k; exact (lexes_cluster edgeText he k c).append (ih (k + 1))
@@ -484,15 +516,15 @@ theorem lexDot_renderDot (title : List Nat) (edgeText : Nat → List Nat) (d : D
     lexDot (renderDot title edgeText d) = some (docToks title edgeText d) := by
   apply lexDot_of_lexes
   unfold renderDot
-  have hind2 : Lexes .top ind2 [] .top := Lexes.of_eq (by decide)
-  have h := (((((Lexes.of_eq (st := .top) (st' := .top) (a := kwDigraph ++ [32, 123, 10] ++ ind2 ++ txtLabelEq)
+  have hind2 : Lexes .bol ind2 [] .top := Lexes.of_eq (by decide)
+  have h := (((((Lexes.of_eq (st := .bol) (st' := .top) (a := kwDigraph ++ [32, 123, 10] ++ ind2 ++ txtLabelEq)
       (ts := [.id kwDigraph, .lbrace, .id kwLabel, .eq]) (by decide)).append
     (lexes_quoted ht)).append
-    (Lexes.of_eq (st := .top) (st' := .top) (a := [59, 10] ++ ind2 ++ kwRankdir ++ [61] ++ kwLR ++ [59, 10])
+    (Lexes.of_eq (st := .top) (st' := .bol) (a := [59, 10] ++ ind2 ++ kwRankdir ++ [61] ++ kwLR ++ [59, 10])
       (ts := [.semi, .id kwRankdir, .eq, .id kwLR, .semi]) (by decide))).append
     (lexes_graph hind2 (pre := []) (fun x hx => nomatch hx) edgeText he d.main)).append
     (lexes_clusters edgeText he d.clusters 0)).append
-    (Lexes.of_eq (st := .top) (st' := .top) (a := [125, 10]) (ts := [.rbrace]) (by decide))
+    (Lexes.of_eq (st := .bol) (st' := .bol) (a := [125, 10]) (ts := [.rbrace]) (by decide))
   simpa [docToks, docBodyToks, List.append_assoc] using h
 
 /-! ## The parse tree of a rendered document -/
@@ -559,21 +591,17 @@ theorem pStmts_edge (f : Nat) (pre : List Nat) (edgeText : Nat → List Nat) (e 
       | none => none
       | some (ss, r2) => some (edgeStmt pre edgeText e :: ss, r2) := rfl
 
-theorem pStmts_attr_str (f : Nat) (k v : List Nat) (hk : k ≠ kwSubgraph) (rest : List DTok) :
-    pStmts (f + 1) (.id k :: .eq :: .str v :: .semi :: rest) =
+theorem pStmts_label (f : Nat) (v : List Nat) (rest : List DTok) :
+    pStmts (f + 1) (.id kwLabel :: .eq :: .str v :: .semi :: rest) =
       match pStmts f rest with
       | none => none
-      | some (ss, r2) => some (.attr k v :: ss, r2) := by
-  simp only [pStmts, hk, if_false, pIdStmt, pAttrStmt, tokValue]
-  cases pStmts f rest <;> rfl
+      | some (ss, r2) => some (.attr kwLabel v :: ss, r2) := rfl
 
-theorem pStmts_attr_id (f : Nat) (k v : List Nat) (hk : k ≠ kwSubgraph) (rest : List DTok) :
-    pStmts (f + 1) (.id k :: .eq :: .id v :: .semi :: rest) =
+theorem pStmts_rankdir (f : Nat) (rest : List DTok) :
+    pStmts (f + 1) (.id kwRankdir :: .eq :: .id kwLR :: .semi :: rest) =
       match pStmts f rest with
       | none => none
-      | some (ss, r2) => some (.attr k v :: ss, r2) := by
-  simp only [pStmts, hk, if_false, pIdStmt, pAttrStmt, tokValue]
-  cases pStmts f rest <;> rfl
+      | some (ss, r2) => some (.attr kwRankdir kwLR :: ss, r2) := rfl
 
 theorem ParsesTo.step {b : Nat} {toks rest tail r : _} {st : DStmt}
     (hstep : ∀ f, pStmts (f + 1) toks =
@@ -621,8 +649,32 @@ theorem startsWith_append (p s : List Nat) : startsWith p (p ++ s) = true := by
   | nil => rfl
   | cons c p ih => simp [startsWith, ih]
 
+/-- no keyword starts with `c` -/
+theorem isKw_c (t : List Nat) : isKw (99 :: t) = false := by
+  simp [isKw, lower, lowerChar, kwStrict, kwGraph, kwDigraph, kwNode, kwEdge, kwSubgraph]
+
+theorem tokID_clusterName (ds : List Nat) :
+    tokID (.id (kwClusterPre ++ ds)) = some (kwClusterPre ++ ds) := by
+  have : isKw (kwClusterPre ++ ds) = false := isKw_c _
+  simp only [tokID, this]
+  rfl
+
+theorem pStmts_subgraph (f : Nat) (ds : List Nat) (X : List DTok) :
+    pStmts (f + 1) (.id kwSubgraph :: .id (kwClusterPre ++ ds) :: .lbrace :: X) =
+      match pStmts f X with
+      | none => none
+      | some (body, r2) =>
+        match pStmts f (dropSemi r2) with
+        | none => none
+        | some (ss, r3) => some (.sub (kwClusterPre ++ ds) body :: ss, r3) := by
+  have hs : isSubgraphKw (.id kwSubgraph) = true := by decide
+  simp only [pStmts, hs, if_true, pSubHead, tokID_clusterName]
+  cases pStmts f X with
+  | none => rfl
+  | some p => cases pStmts f (dropSemi p.2) <;> rfl
+
 theorem parsesTo_cluster (edgeText : Nat → List Nat) (k : Nat) (c : DCluster) {b : Nat}
-    {rest tail r : _} (h : ParsesTo b rest (tail, r)) :
+    {rest tail r : _} (h : ParsesTo b rest (tail, r)) (hrest : dropSemi rest = rest) :
     ParsesTo (b + graphSize c.g + 3) (clusterToks edgeText k c ++ rest)
       (clusterStmt edgeText k c :: tail, r) := by
   intro f hf
@@ -631,36 +683,40 @@ theorem parsesTo_cluster (edgeText : Nat → List Nat) (k : Nat) (c : DCluster) 
       (.id kwLabel :: .eq :: .str (clusterLabelText c) :: .semi ::
         (graphToks (clusterPre c) edgeText c.g ++ (.rbrace :: rest)))
       (.attr kwLabel (clusterLabelText c) :: (graphStmts (clusterPre c) edgeText c.g ++ []), rest) :=
-    ParsesTo.step (fun f => pStmts_attr_str f kwLabel _ (by decide) _)
+    ParsesTo.step (fun f => pStmts_label f _ _)
       (parsesTo_graph (clusterPre c) edgeText c.g (parsesTo_rbrace rest))
   have h1 := hbody f' (by omega)
   have h2 := h f' (by omega)
   simp only [List.append_nil] at h1
-  simp only [clusterToks, clusterStmt, List.cons_append, List.append_assoc, pStmts, if_true, pClusterHead,
-    startsWith_append, List.nil_append, h1, h2]
+  simp only [clusterToks, clusterStmt, List.cons_append, List.append_assoc, pStmts_subgraph,
+    List.nil_append, h1, hrest, h2]
 
 def clustersSize : List DCluster → Nat
   | [] => 0
   | c :: r => graphSize c.g + 3 + clustersSize r
 
 theorem parsesTo_clusters (edgeText : Nat → List Nat) (cs : List DCluster) {b : Nat}
-    {rest tail r : _} (h : ParsesTo b rest (tail, r)) : ∀ k,
+    {rest tail r : _} (h : ParsesTo b rest (tail, r)) (hrest : dropSemi rest = rest) : ∀ k,
     ParsesTo (b + clustersSize cs) (clustersToks edgeText k cs ++ rest)
       (clustersStmts edgeText k cs ++ tail, r) := by
   induction cs with
   | nil => intro k; simpa [clustersToks, clustersStmts, clustersSize] using h
   | cons c cs ih =>
     intro k
-    have := parsesTo_cluster edgeText k c (ih (k + 1))
+    have hds : dropSemi (clustersToks edgeText (k + 1) cs ++ rest) = clustersToks edgeText (k + 1) cs ++ rest := by
+      cases cs with
+      | nil => simpa [clustersToks] using hrest
+      | cons c' cs' => rfl
+    have := parsesTo_cluster edgeText k c (ih (k + 1)) hds
     refine ParsesTo.mono (by simpa [clustersToks, clustersStmts, List.append_assoc] using this) ?_
     simp only [clustersSize]; omega
 
 theorem parsesTo_docBody (title : List Nat) (edgeText : Nat → List Nat) (d : DotDoc) :
     ParsesTo (clustersSize d.clusters + graphSize d.main + 3) (docBodyToks title edgeText d)
       (docStmts title edgeText d, []) := by
-  have h := ParsesTo.step (fun f => pStmts_attr_str f kwLabel title (by decide) _)
-    (ParsesTo.step (fun f => pStmts_attr_id f kwRankdir kwLR (by decide) _)
-      (parsesTo_graph [] edgeText d.main (parsesTo_clusters edgeText d.clusters (parsesTo_rbrace []) 0)))
+  have h := ParsesTo.step (fun f => pStmts_label f title _)
+    (ParsesTo.step (fun f => pStmts_rankdir f _)
+      (parsesTo_graph [] edgeText d.main (parsesTo_clusters edgeText d.clusters (parsesTo_rbrace []) rfl 0)))
   refine ParsesTo.mono (by simpa [docBodyToks, docStmts, List.append_assoc] using h) (by omega)
 
 /-! the fuel `parseToks` provides (the number of tokens) is enough -/
@@ -692,6 +748,12 @@ theorem length_clustersToks (edgeText : Nat → List Nat) (cs : List DCluster) :
     have := length_graphToks (clusterPre c) edgeText c.g
     simp only [clustersSize, clustersToks, clusterToks, List.length_append, List.length_cons]; omega
 
+theorem parseToks_digraph (r : List DTok) :
+    parseToks (.id kwDigraph :: .lbrace :: r) =
+      match pStmts (r.length + 2) r with
+      | some (ss, []) => some ⟨ss⟩
+      | _ => none := rfl
+
 /-- the parser builds the expected tree from the expected tokens -/
 theorem parseToks_docToks (title : List Nat) (edgeText : Nat → List Nat) (d : DotDoc) :
     parseToks (docToks title edgeText d) = some ⟨docStmts title edgeText d⟩ := by
@@ -700,7 +762,7 @@ theorem parseToks_docToks (title : List Nat) (edgeText : Nat → List Nat) (d : 
     have := length_clustersToks edgeText d.clusters 0
     simp only [docBodyToks, List.length_append, List.length_cons]; omega
   have := parsesTo_docBody title edgeText d _ hlen
-  simp only [docToks, parseToks, if_true, this]
+  simp only [docToks, parseToks_digraph, this]
 
 /-! ## Decoding the tree -/
 
@@ -795,34 +857,59 @@ theorem decodeEdge_edgeStmt (pre : List Nat) (edgeText : Nat → List Nat) (e : 
 
 /-! what each decoder sees of a list of statements -/
 
+theorem isCluster_pre (ds : List Nat) : isCluster (kwClusterPre ++ ds) = true := rfl
+
+theorem decodeNodes_skip (pre : List Nat) (s : DStmt) (r : List DStmt)
+    (h : decodeNodesStmt pre s = some []) : decodeNodes pre (s :: r) = decodeNodes pre r := by
+  simp only [decodeNodes, h]
+  cases decodeNodes pre r <;> rfl
+
+theorem decodeEdges_skip (pre : List Nat) (s : DStmt) (r : List DStmt)
+    (h : decodeEdgesStmt pre s = some []) : decodeEdges pre (s :: r) = decodeEdges pre r := by
+  simp only [decodeEdges, h]
+  cases decodeEdges pre r <;> rfl
+
+theorem decodeClusters_skip (s : DStmt) (r : List DStmt)
+    (h : decodeClustersStmt s = some []) : decodeClusters (s :: r) = decodeClusters r := by
+  simp only [decodeClusters, h]
+  cases decodeClusters r <;> rfl
+
 theorem decodeNodes_nodes (pre : List Nat) (ns : List DNode) (h : ∀ n ∈ ns, NodeOK n)
     (tail : List DStmt) (t : List DNode) (ht : decodeNodes pre tail = some t) :
     decodeNodes pre (ns.map (nodeStmt pre) ++ tail) = some (ns ++ t) := by
   induction ns with
   | nil => simpa using ht
   | cons n ns ih =>
-    simp only [List.map_cons, List.cons_append, nodeStmt, decodeNodes]
+    simp only [List.map_cons, List.cons_append, nodeStmt, decodeNodes, decodeNodesStmt]
     rw [decodeNode_nodeStmt pre n (h n (by simp))]
     rw [ih (fun x hx => h x (by simp [hx]))]
+    rfl
 
 theorem decodeNodes_edges (pre pre' : List Nat) (edgeText : Nat → List Nat) (es : List DEdge)
     (tail : List DStmt) :
     decodeNodes pre (es.map (edgeStmt pre' edgeText) ++ tail) = decodeNodes pre tail := by
   induction es with
   | nil => rfl
-  | cons e es ih => exact ih
+  | cons e es ih =>
+    simp only [List.map_cons, List.cons_append]
+    rw [decodeNodes_skip _ _ _ (by simp only [edgeStmt, decodeNodesStmt]), ih]
 
 theorem decodeNodes_clusters (pre : List Nat) (edgeText : Nat → List Nat) (cs : List DCluster) :
     ∀ k, decodeNodes pre (clustersStmts edgeText k cs) = some [] := by
   induction cs with
-  | nil => intro k; rfl
-  | cons c cs ih => intro k; simpa [clustersStmts, clusterStmt, decodeNodes] using ih (k + 1)
+  | nil => intro k; simp only [clustersStmts, decodeNodes]
+  | cons c cs ih =>
+    intro k
+    simp only [clustersStmts]
+    rw [decodeNodes_skip _ _ _ (by simp only [clusterStmt, decodeNodesStmt, isCluster_pre, if_true]), ih]
 
 theorem decodeEdges_nodes (pre pre' : List Nat) (ns : List DNode) (tail : List DStmt) :
     decodeEdges pre (ns.map (nodeStmt pre') ++ tail) = decodeEdges pre tail := by
   induction ns with
   | nil => rfl
-  | cons n ns ih => exact ih
+  | cons n ns ih =>
+    simp only [List.map_cons, List.cons_append]
+    rw [decodeEdges_skip _ _ _ (by simp only [nodeStmt, decodeEdgesStmt]), ih]
 
 theorem decodeEdges_edges (pre : List Nat) (edgeText : Nat → List Nat) (es : List DEdge)
     (tail : List DStmt) (t : List DEdge) (ht : decodeEdges pre tail = some t) :
@@ -830,15 +917,19 @@ theorem decodeEdges_edges (pre : List Nat) (edgeText : Nat → List Nat) (es : L
   induction es with
   | nil => simpa using ht
   | cons e es ih =>
-    simp only [List.map_cons, List.cons_append, edgeStmt, decodeEdges]
+    simp only [List.map_cons, List.cons_append, edgeStmt, decodeEdges, decodeEdgesStmt]
     rw [decodeEdge_edgeStmt pre edgeText e]
     rw [ih]
+    rfl
 
 theorem decodeEdges_clusters (pre : List Nat) (edgeText : Nat → List Nat) (cs : List DCluster) :
     ∀ k, decodeEdges pre (clustersStmts edgeText k cs) = some [] := by
   induction cs with
-  | nil => intro k; rfl
-  | cons c cs ih => intro k; simpa [clustersStmts, clusterStmt, decodeEdges] using ih (k + 1)
+  | nil => intro k; simp only [clustersStmts, decodeEdges]
+  | cons c cs ih =>
+    intro k
+    simp only [clustersStmts]
+    rw [decodeEdges_skip _ _ _ (by simp only [clusterStmt, decodeEdgesStmt, isCluster_pre, if_true]), ih]
 
 def GraphOK (g : DGraph) : Prop := ∀ n ∈ g.nodes, NodeOK n
 
@@ -882,11 +973,15 @@ theorem clusterLabel_text (c : DCluster) : clusterLabel (clusterLabelText c) = s
 
 theorem decodeCluster_body (edgeText : Nat → List Nat) (c : DCluster) (h : GraphOK c.g) :
     decodeCluster (.attr kwLabel (clusterLabelText c) :: graphStmts (clusterPre c) edgeText c.g) = some c := by
-  have hg := decodeGraph_graphStmts (clusterPre c) edgeText c.g h [] rfl rfl
+  have hg := decodeGraph_graphStmts (clusterPre c) edgeText c.g h [] (by simp only [decodeNodes])
+    (by simp only [decodeEdges])
   simp only [List.append_nil] at hg
   have hg' : decodeGraph (clusterPre c)
       (.attr kwLabel (clusterLabelText c) :: graphStmts (clusterPre c) edgeText c.g) = some c.g := by
-    simpa [decodeGraph, decodeNodes, decodeEdges] using hg
+    unfold decodeGraph at hg ⊢
+    rw [decodeNodes_skip _ _ _ (by simp only [decodeNodesStmt]),
+      decodeEdges_skip _ _ _ (by simp only [decodeEdgesStmt])]
+    exact hg
   simp only [decodeCluster, lastLabel, if_true, lastLabel_graphStmts, clusterLabel_text]
   rw [show natDigits c.tid ++ [95] = clusterPre c from rfl, hg']
 
@@ -899,19 +994,24 @@ theorem decodeClusters_graphStmts (pre : List Nat) (edgeText : Nat → List Nat)
     intro es
     induction es with
     | nil => rfl
-    | cons e es ih => simpa [edgeStmt, decodeClusters] using ih
+    | cons e es ih =>
+      simp only [List.map_cons, List.cons_append]
+      rw [decodeClusters_skip _ _ (by simp only [edgeStmt, decodeClustersStmt]), ih]
   induction g.nodes with
   | nil => simpa using hE g.edges
-  | cons n ns ih => simpa [nodeStmt, decodeClusters] using ih
+  | cons n ns ih =>
+    simp only [List.map_cons, List.cons_append]
+    rw [decodeClusters_skip _ _ (by simp only [nodeStmt, decodeClustersStmt]), ih]
 
 theorem decodeClusters_clusters (edgeText : Nat → List Nat) (cs : List DCluster)
     (h : ∀ c ∈ cs, GraphOK c.g) : ∀ k, decodeClusters (clustersStmts edgeText k cs) = some cs := by
   induction cs with
-  | nil => intro k; rfl
+  | nil => intro k; simp only [clustersStmts, decodeClusters]
   | cons c cs ih =>
     intro k
-    simp only [clustersStmts, clusterStmt, decodeClusters]
+    simp only [clustersStmts, clusterStmt, decodeClusters, decodeClustersStmt, isCluster_pre, if_true]
     rw [decodeCluster_body edgeText c (h c (by simp)), ih (fun x hx => h x (by simp [hx]))]
+    rfl
 
 def DocOK (d : DotDoc) : Prop := GraphOK d.main ∧ ∀ c ∈ d.clusters, GraphOK c.g
 
@@ -921,9 +1021,16 @@ theorem decodeDot_docStmts (title : List Nat) (edgeText : Nat → List Nat) (d :
   have hg := decodeGraph_graphStmts [] edgeText d.main h.1 (clustersStmts edgeText 0 d.clusters)
     (decodeNodes_clusters _ _ _ 0) (decodeEdges_clusters _ _ _ 0)
   have hg' : decodeGraph [] (docStmts title edgeText d) = some d.main := by
-    simpa [docStmts, decodeGraph, decodeNodes, decodeEdges] using hg
+    unfold decodeGraph docStmts at *
+    rw [decodeNodes_skip _ _ _ (by simp only [decodeNodesStmt]),
+      decodeNodes_skip _ _ _ (by simp only [decodeNodesStmt]),
+      decodeEdges_skip _ _ _ (by simp only [decodeEdgesStmt]),
+      decodeEdges_skip _ _ _ (by simp only [decodeEdgesStmt])]
+    exact hg
   have hc : decodeClusters (docStmts title edgeText d) = some d.clusters := by
-    simp only [docStmts, decodeClusters, decodeClusters_graphStmts]
+    unfold docStmts
+    rw [decodeClusters_skip _ _ (by simp only [decodeClustersStmt]),
+      decodeClusters_skip _ _ (by simp only [decodeClustersStmt]), decodeClusters_graphStmts]
     exact decodeClusters_clusters edgeText d.clusters h.2 0
   simp only [decodeDot, hg', hc]
 
@@ -981,28 +1088,138 @@ theorem parseDot_wellformed_only :
     parseDot [100, 105, 103, 114, 97, 112, 104, 32, 123, 32, 125, 32, 125] = none ∧
     -- a subgraph is not closed: `digraph { subgraph cluster_0 { "0" [label="0"]; }`
     parseDot [100, 105, 103, 114, 97, 112, 104, 32, 123, 32, 115, 117, 98, 103, 114, 97, 112, 104, 32, 99, 108, 117, 115, 116, 101, 114, 95, 48, 32, 123, 32, 34, 48, 34, 32, 91, 108, 97, 98, 101, 108, 61, 34, 48, 34, 93, 59, 32, 125] = none ∧
+    -- a block is not closed: `digraph { { "0" }`
+    parseDot [100, 105, 103, 114, 97, 112, 104, 32, 123, 32, 123, 32, 34, 48, 34, 32, 125] = none ∧
     -- unterminated string: `digraph { "0; }`
     parseDot [100, 105, 103, 114, 97, 112, 104, 32, 123, 32, 34, 48, 59, 32, 125] = none ∧
     -- a backslash escapes the closing quote: `digraph { "0" [label="a\"]; }`
     parseDot [100, 105, 103, 114, 97, 112, 104, 32, 123, 32, 34, 48, 34, 32, 91, 108, 97, 98, 101, 108, 61, 34, 97, 92, 34, 93, 59, 32, 125] = none ∧
-    -- missing `]`: `digraph { "0" [label="0"; }`
-    parseDot [100, 105, 103, 114, 97, 112, 104, 32, 123, 32, 34, 48, 34, 32, 91, 108, 97, 98, 101, 108, 61, 34, 48, 34, 59, 32, 125] = none ∧
-    -- two `digraph`s in one file: `digraph { } digraph { }`
-    parseDot [100, 105, 103, 114, 97, 112, 104, 32, 123, 32, 125, 32, 100, 105, 103, 114, 97, 112, 104, 32, 123, 32, 125] = none ∧
     -- an unescaped quote inside a label (the rest is an unterminated string): `digraph { "0" [label="a"b"]; }`
     parseDot [100, 105, 103, 114, 97, 112, 104, 32, 123, 32, 34, 48, 34, 32, 91, 108, 97, 98, 101, 108, 61, 34, 97, 34, 98, 34, 93, 59, 32, 125] = none ∧
-    -- an unescaped quote inside a label (the label falls apart into three tokens): `digraph { "0" [label="a"b"c"]; }`
-    parseDot [100, 105, 103, 114, 97, 112, 104, 32, 123, 32, 34, 48, 34, 32, 91, 108, 97, 98, 101, 108, 61, 34, 97, 34, 98, 34, 99, 34, 93, 59, 32, 125] = none ∧
-    -- a graph name: `digraph G { }`
-    parseDot [100, 105, 103, 114, 97, 112, 104, 32, 71, 32, 123, 32, 125] = none ∧
+    -- unterminated `/*` comment: `digraph { } /* end`
+    parseDot [100, 105, 103, 114, 97, 112, 104, 32, 123, 32, 125, 32, 47, 42, 32, 101, 110, 100] = none ∧
+    -- unterminated `/*` comment (`*` alone does not close it): `digraph { /* * / }`
+    parseDot [100, 105, 103, 114, 97, 112, 104, 32, 123, 32, 47, 42, 32, 42, 32, 47, 32, 125] = none ∧
+    -- `/` that does not start a comment: `digraph { / }`
+    parseDot [100, 105, 103, 114, 97, 112, 104, 32, 123, 32, 47, 32, 125] = none ∧
+    -- `#` that is not the first character of a line: `digraph { # x\n}`
+    parseDot [100, 105, 103, 114, 97, 112, 104, 32, 123, 32, 35, 32, 120, 10, 125] = none ∧
+    -- `digraph` missing: `{ "0" [label="0"]; }`
+    parseDot [123, 32, 34, 48, 34, 32, 91, 108, 97, 98, 101, 108, 61, 34, 48, 34, 93, 59, 32, 125] = none ∧
+    -- `digraph` missing (undirected graph): `graph { }`
+    parseDot [103, 114, 97, 112, 104, 32, 123, 32, 125] = none ∧
+    -- `strict` twice: `strict strict digraph { }`
+    parseDot [115, 116, 114, 105, 99, 116, 32, 115, 116, 114, 105, 99, 116, 32, 100, 105, 103, 114, 97, 112, 104, 32, 123, 32, 125] = none ∧
+    -- a keyword as graph ID: `digraph node { }`
+    parseDot [100, 105, 103, 114, 97, 112, 104, 32, 110, 111, 100, 101, 32, 123, 32, 125] = none ∧
+    -- two graph IDs: `digraph a b { }`
+    parseDot [100, 105, 103, 114, 97, 112, 104, 32, 97, 32, 98, 32, 123, 32, 125] = none ∧
+    -- two graphs in one file: `digraph { } digraph { }`
+    parseDot [100, 105, 103, 114, 97, 112, 104, 32, 123, 32, 125, 32, 100, 105, 103, 114, 97, 112, 104, 32, 123, 32, 125] = none ∧
+    -- text after the closing brace: `digraph { } x`
+    parseDot [100, 105, 103, 114, 97, 112, 104, 32, 123, 32, 125, 32, 120] = none ∧
+    -- `;` after the closing brace: `digraph { };`
+    parseDot [100, 105, 103, 114, 97, 112, 104, 32, 123, 32, 125, 59] = none ∧
+    -- missing `]`: `digraph { "0" [label="0"; }`
+    parseDot [100, 105, 103, 114, 97, 112, 104, 32, 123, 32, 34, 48, 34, 32, 91, 108, 97, 98, 101, 108, 61, 34, 48, 34, 59, 32, 125] = none ∧
+    -- `]` without `[`: `digraph { "0" label="0"]; }`
+    parseDot [100, 105, 103, 114, 97, 112, 104, 32, 123, 32, 34, 48, 34, 32, 108, 97, 98, 101, 108, 61, 34, 48, 34, 93, 59, 32, 125] = none ∧
+    -- one `]` too many: `digraph { "0" [label="0"]]; }`
+    parseDot [100, 105, 103, 114, 97, 112, 104, 32, 123, 32, 34, 48, 34, 32, 91, 108, 97, 98, 101, 108, 61, 34, 48, 34, 93, 93, 59, 32, 125] = none ∧
+    -- attribute without value `[a=]`: `digraph { "0" [a=]; }`
+    parseDot [100, 105, 103, 114, 97, 112, 104, 32, 123, 32, 34, 48, 34, 32, 91, 97, 61, 93, 59, 32, 125] = none ∧
+    -- attribute without name `[=b]`: `digraph { "0" [=b]; }`
+    parseDot [100, 105, 103, 114, 97, 112, 104, 32, 123, 32, 34, 48, 34, 32, 91, 61, 98, 93, 59, 32, 125] = none ∧
+    -- attribute without `=`: `digraph { "0" [a b]; }`
+    parseDot [100, 105, 103, 114, 97, 112, 104, 32, 123, 32, 34, 48, 34, 32, 91, 97, 32, 98, 93, 59, 32, 125] = none ∧
+    -- two separators in an attribute list: `digraph { "0" [a=b,,c=d]; }`
+    parseDot [100, 105, 103, 114, 97, 112, 104, 32, 123, 32, 34, 48, 34, 32, 91, 97, 61, 98, 44, 44, 99, 61, 100, 93, 59, 32, 125] = none ∧
+    -- an attribute list starting with a separator: `digraph { "0" [,a=b]; }`
+    parseDot [100, 105, 103, 114, 97, 112, 104, 32, 123, 32, 34, 48, 34, 32, 91, 44, 97, 61, 98, 93, 59, 32, 125] = none ∧
+    -- an edge without target `a -> ;`: `digraph { a -> ; }`
+    parseDot [100, 105, 103, 114, 97, 112, 104, 32, 123, 32, 97, 32, 45, 62, 32, 59, 32, 125] = none ∧
+    -- an edge without target at the end: `digraph { a -> }`
+    parseDot [100, 105, 103, 114, 97, 112, 104, 32, 123, 32, 97, 32, 45, 62, 32, 125] = none ∧
+    -- an edge without source: `digraph { -> a }`
+    parseDot [100, 105, 103, 114, 97, 112, 104, 32, 123, 32, 45, 62, 32, 97, 32, 125] = none ∧
     -- `-` without `>`: `digraph { "0" - "1"; }`
     parseDot [100, 105, 103, 114, 97, 112, 104, 32, 123, 32, 34, 48, 34, 32, 45, 32, 34, 49, 34, 59, 32, 125] = none ∧
-    -- an empty attribute list: `digraph { "0" []; }`
-    parseDot [100, 105, 103, 114, 97, 112, 104, 32, 123, 32, 34, 48, 34, 32, 91, 93, 59, 32, 125] = none ∧
-    -- a statement without `;`: `digraph { "0" [label="0"] }`
-    parseDot [100, 105, 103, 114, 97, 112, 104, 32, 123, 32, 34, 48, 34, 32, 91, 108, 97, 98, 101, 108, 61, 34, 48, 34, 93, 32, 125] = none ∧
-    -- a character outside of the subset: `digraph { "0" [label="0"]; # }`
-    parseDot [100, 105, 103, 114, 97, 112, 104, 32, 123, 32, 34, 48, 34, 32, 91, 108, 97, 98, 101, 108, 61, 34, 48, 34, 93, 59, 32, 35, 32, 125] = none := by
+    -- the undirected edge operator: `digraph { a -- b }`
+    parseDot [100, 105, 103, 114, 97, 112, 104, 32, 123, 32, 97, 32, 45, 45, 32, 98, 32, 125] = none ∧
+    -- two `;` after a statement: `digraph { a;; }`
+    parseDot [100, 105, 103, 114, 97, 112, 104, 32, 123, 32, 97, 59, 59, 32, 125] = none ∧
+    -- `;` without a statement: `digraph { ; }`
+    parseDot [100, 105, 103, 114, 97, 112, 104, 32, 123, 32, 59, 32, 125] = none ∧
+    -- `subgraph` without a body: `digraph { subgraph s; }`
+    parseDot [100, 105, 103, 114, 97, 112, 104, 32, 123, 32, 115, 117, 98, 103, 114, 97, 112, 104, 32, 115, 59, 32, 125] = none ∧
+    -- a keyword as node name: `digraph { edge -> a }`
+    parseDot [100, 105, 103, 114, 97, 112, 104, 32, 123, 32, 101, 100, 103, 101, 32, 45, 62, 32, 97, 32, 125] = none ∧
+    -- a keyword as attribute statement `node = x`: `digraph { node = x }`
+    parseDot [100, 105, 103, 114, 97, 112, 104, 32, 123, 32, 110, 111, 100, 101, 32, 61, 32, 120, 32, 125] = none ∧
+    -- default attributes without a list: `digraph { node; }`
+    parseDot [100, 105, 103, 114, 97, 112, 104, 32, 123, 32, 110, 111, 100, 101, 59, 32, 125] = none ∧
+    -- a numeral with two dots: `digraph { a [w=1.2.3] }`
+    parseDot [100, 105, 103, 114, 97, 112, 104, 32, 123, 32, 97, 32, 91, 119, 61, 49, 46, 50, 46, 51, 93, 32, 125] = none ∧
+    -- a numeral running into a name: `digraph { a [w=3abc] }`
+    parseDot [100, 105, 103, 114, 97, 112, 104, 32, 123, 32, 97, 32, 91, 119, 61, 51, 97, 98, 99, 93, 32, 125] = none ∧
+    -- a lone `.`: `digraph { a [w=.] }`
+    parseDot [100, 105, 103, 114, 97, 112, 104, 32, 123, 32, 97, 32, 91, 119, 61, 46, 93, 32, 125] = none ∧
+    -- a dot inside a bare identifier: `digraph { a.b }`
+    parseDot [100, 105, 103, 114, 97, 112, 104, 32, 123, 32, 97, 46, 98, 32, 125] = none ∧
+    -- a port (not part of the subset): `digraph { a:p -> b }`
+    parseDot [100, 105, 103, 114, 97, 112, 104, 32, 123, 32, 97, 58, 112, 32, 45, 62, 32, 98, 32, 125] = none ∧
+    -- a character outside of the language: `digraph { a ? }`
+    parseDot [100, 105, 103, 114, 97, 112, 104, 32, 123, 32, 97, 32, 63, 32, 125] = none := by
+  decide
+
+/-! ## Positive facts: the DOT grammar beyond what the crate writes -/
+
+/-- Each text is accepted; where it also decodes, the numbers of main nodes, main edges and
+    clusters are given. -/
+theorem parseDot_accepts :
+    -- the empty graph: `digraph { }`
+    ((parseDot [100, 105, 103, 114, 97, 112, 104, 32, 123, 32, 125]).bind decodeDot).map
+        (fun d => (d.main.nodes.length, d.main.edges.length, d.clusters.length)) = some (0, 0, 0) ∧
+    -- `strict` and a graph ID: `strict digraph G { }`
+    ((parseDot [115, 116, 114, 105, 99, 116, 32, 100, 105, 103, 114, 97, 112, 104, 32, 71, 32, 123, 32, 125]).bind decodeDot).map
+        (fun d => (d.main.nodes.length, d.main.edges.length, d.clusters.length)) = some (0, 0, 0) ∧
+    -- keywords in any case, a quoted graph ID: `STRICT DiGraph "my graph" { }`
+    ((parseDot [83, 84, 82, 73, 67, 84, 32, 68, 105, 71, 114, 97, 112, 104, 32, 34, 109, 121, 32, 103, 114, 97, 112, 104, 34, 32, 123, 32, 125]).bind decodeDot).map
+        (fun d => (d.main.nodes.length, d.main.edges.length, d.clusters.length)) = some (0, 0, 0) ∧
+    -- a numeral as graph ID, a comment after the closing brace: `digraph 12 { } // done\n`
+    ((parseDot [100, 105, 103, 114, 97, 112, 104, 32, 49, 50, 32, 123, 32, 125, 32, 47, 47, 32, 100, 111, 110, 101, 10]).bind decodeDot).map
+        (fun d => (d.main.nodes.length, d.main.edges.length, d.clusters.length)) = some (0, 0, 0) ∧
+    -- comments: `/* a\n b */ digraph { /** c **/ // d\n }`
+    ((parseDot [47, 42, 32, 97, 10, 32, 98, 32, 42, 47, 32, 100, 105, 103, 114, 97, 112, 104, 32, 123, 32, 47, 42, 42, 32, 99, 32, 42, 42, 47, 32, 47, 47, 32, 100, 10, 32, 125]).bind decodeDot).map
+        (fun d => (d.main.nodes.length, d.main.edges.length, d.clusters.length)) = some (0, 0, 0) ∧
+    -- `#` lines: `# 1 "x.gv"\ndigraph {\n# 5\n}`
+    ((parseDot [35, 32, 49, 32, 34, 120, 46, 103, 118, 34, 10, 100, 105, 103, 114, 97, 112, 104, 32, 123, 10, 35, 32, 53, 10, 125]).bind decodeDot).map
+        (fun d => (d.main.nodes.length, d.main.edges.length, d.clusters.length)) = some (0, 0, 0) ∧
+    -- no `;`, bare names and numerals as IDs, several attribute lists, all separators: `digraph { 0 [label=0] 1 [a=b c=d; e=f, ] [label="1 T3"][] 0 -> 1 [label="x (C#5)"] }`
+    ((parseDot [100, 105, 103, 114, 97, 112, 104, 32, 123, 32, 48, 32, 91, 108, 97, 98, 101, 108, 61, 48, 93, 32, 49, 32, 91, 97, 61, 98, 32, 99, 61, 100, 59, 32, 101, 61, 102, 44, 32, 93, 32, 91, 108, 97, 98, 101, 108, 61, 34, 49, 32, 84, 51, 34, 93, 91, 93, 32, 48, 32, 45, 62, 32, 49, 32, 91, 108, 97, 98, 101, 108, 61, 34, 120, 32, 40, 67, 35, 53, 41, 34, 93, 32, 125]).bind decodeDot).map
+        (fun d => (d.main.nodes.length, d.main.edges.length, d.clusters.length)) = some (2, 1, 0) ∧
+    -- an edge chain is its edges, with the same attributes: `digraph { 0 [label=0] 1 [label=1] 0 -> 1 -> 0 [label="x (C#5)"] }`
+    ((parseDot [100, 105, 103, 114, 97, 112, 104, 32, 123, 32, 48, 32, 91, 108, 97, 98, 101, 108, 61, 48, 93, 32, 49, 32, 91, 108, 97, 98, 101, 108, 61, 49, 93, 32, 48, 32, 45, 62, 32, 49, 32, 45, 62, 32, 48, 32, 91, 108, 97, 98, 101, 108, 61, 34, 120, 32, 40, 67, 35, 53, 41, 34, 93, 32, 125]).bind decodeDot).map
+        (fun d => (d.main.nodes.length, d.main.edges.length, d.clusters.length)) = some (2, 2, 0) ∧
+    -- numerals as values: `digraph { 0 [label=0, w=-1.5, x=.5, y=3., z=-.7] }`
+    ((parseDot [100, 105, 103, 114, 97, 112, 104, 32, 123, 32, 48, 32, 91, 108, 97, 98, 101, 108, 61, 48, 44, 32, 119, 61, 45, 49, 46, 53, 44, 32, 120, 61, 46, 53, 44, 32, 121, 61, 51, 46, 44, 32, 122, 61, 45, 46, 55, 93, 32, 125]).bind decodeDot).map
+        (fun d => (d.main.nodes.length, d.main.edges.length, d.clusters.length)) = some (1, 0, 0) ∧
+    -- blocks and non-cluster subgraphs only group nodes of the enclosing graph; `;` after `}`: `digraph { subgraph { 0 [label=0]; } {1 [label=1]}; SubGraph s {2[label=2]} subgraph cluster_x { label="LA for T3(Neg)" "3_0" [label=0] } }`
+    ((parseDot [100, 105, 103, 114, 97, 112, 104, 32, 123, 32, 115, 117, 98, 103, 114, 97, 112, 104, 32, 123, 32, 48, 32, 91, 108, 97, 98, 101, 108, 61, 48, 93, 59, 32, 125, 32, 123, 49, 32, 91, 108, 97, 98, 101, 108, 61, 49, 93, 125, 59, 32, 83, 117, 98, 71, 114, 97, 112, 104, 32, 115, 32, 123, 50, 91, 108, 97, 98, 101, 108, 61, 50, 93, 125, 32, 115, 117, 98, 103, 114, 97, 112, 104, 32, 99, 108, 117, 115, 116, 101, 114, 95, 120, 32, 123, 32, 108, 97, 98, 101, 108, 61, 34, 76, 65, 32, 102, 111, 114, 32, 84, 51, 40, 78, 101, 103, 41, 34, 32, 34, 51, 95, 48, 34, 32, 91, 108, 97, 98, 101, 108, 61, 48, 93, 32, 125, 32, 125]).bind decodeDot).map
+        (fun d => (d.main.nodes.length, d.main.edges.length, d.clusters.length)) = some (3, 0, 1) ∧
+    -- default attributes; the label of a cluster inside `graph [..]`: `digraph { node [shape=box] edge [a=b]; subgraph clusterA { graph [label="LA for T3(Neg)"] "3_0" [label=0] } }`
+    ((parseDot [100, 105, 103, 114, 97, 112, 104, 32, 123, 32, 110, 111, 100, 101, 32, 91, 115, 104, 97, 112, 101, 61, 98, 111, 120, 93, 32, 101, 100, 103, 101, 32, 91, 97, 61, 98, 93, 59, 32, 115, 117, 98, 103, 114, 97, 112, 104, 32, 99, 108, 117, 115, 116, 101, 114, 65, 32, 123, 32, 103, 114, 97, 112, 104, 32, 91, 108, 97, 98, 101, 108, 61, 34, 76, 65, 32, 102, 111, 114, 32, 84, 51, 40, 78, 101, 103, 41, 34, 93, 32, 34, 51, 95, 48, 34, 32, 91, 108, 97, 98, 101, 108, 61, 48, 93, 32, 125, 32, 125]).bind decodeDot).map
+        (fun d => (d.main.nodes.length, d.main.edges.length, d.clusters.length)) = some (0, 0, 1) ∧
+    -- identifiers with code points from 0x80 on (well-formed, but not a picture of an automaton): `digraph { café_1 -> über }`
+    ((parseDot [100, 105, 103, 114, 97, 112, 104, 32, 123, 32, 99, 97, 102, 233, 95, 49, 32, 45, 62, 32, 252, 98, 101, 114, 32, 125]).isSome = true ∧
+      (parseDot [100, 105, 103, 114, 97, 112, 104, 32, 123, 32, 99, 97, 102, 233, 95, 49, 32, 45, 62, 32, 252, 98, 101, 114, 32, 125]).bind decodeDot = none) := by
+  decide
+
+/-- an edge chain `0 -> 1 -> 0 [label=..]` is the two edges, and the nodes of blocks and
+    non-cluster subgraphs belong to the enclosing graph, in the order of the file -/
+theorem decodeDot_chain_and_blocks :
+    (parseDot [100, 105, 103, 114, 97, 112, 104, 32, 123, 32, 48, 32, 91, 108, 97, 98, 101, 108, 61, 48, 93, 32, 123, 32, 49, 32, 91, 108, 97, 98, 101, 108, 61, 34, 49, 32, 84, 52, 34, 93, 32, 125, 32, 48, 32, 45, 62, 32, 49, 32, 45, 62, 32, 48, 32, 91, 108, 97, 98, 101, 108, 61, 34, 120, 32, 40, 67, 35, 53, 41, 34, 93, 32, 125]).bind decodeDot
+      = some ⟨⟨[⟨0, 1, 0⟩, ⟨1, 2, 4⟩], [⟨0, 1, 5⟩, ⟨1, 0, 5⟩]⟩, []⟩ := by
   decide
 
 /-! ## Non-vacuity: a document written out literally -/
@@ -1017,8 +1234,8 @@ digraph {
   "3" [label="3"];
   "4" [shape=circle, color=red, penwidth=3, label="4 T12"];
   "0" -> "1" [label="a (C#0)"];
-  "1" -> "2" [label="\" (C#3)"];
   "0" -> "3" [label="[a-z] (C#10)"];
+  "1" -> "2" [label="\" (C#3)"];
   "3" -> "4" [label="\\ (C#2)"];
   "3" -> "3" [label="a (C#0)"];
   subgraph cluster_0 {
@@ -1043,10 +1260,10 @@ def exText : List Nat := [
     108, 101, 44, 32, 99, 111, 108, 111, 114, 61, 114, 101, 100, 44, 32, 112, 101, 110, 119, 105,
     100, 116, 104, 61, 51, 44, 32, 108, 97, 98, 101, 108, 61, 34, 52, 32, 84, 49, 50, 34, 93, 59,
     10, 32, 32, 34, 48, 34, 32, 45, 62, 32, 34, 49, 34, 32, 91, 108, 97, 98, 101, 108, 61, 34, 97,
-    32, 40, 67, 35, 48, 41, 34, 93, 59, 10, 32, 32, 34, 49, 34, 32, 45, 62, 32, 34, 50, 34, 32, 91,
-    108, 97, 98, 101, 108, 61, 34, 92, 34, 32, 40, 67, 35, 51, 41, 34, 93, 59, 10, 32, 32, 34, 48,
-    34, 32, 45, 62, 32, 34, 51, 34, 32, 91, 108, 97, 98, 101, 108, 61, 34, 91, 97, 45, 122, 93, 32,
-    40, 67, 35, 49, 48, 41, 34, 93, 59, 10, 32, 32, 34, 51, 34, 32, 45, 62, 32, 34, 52, 34, 32, 91,
+    32, 40, 67, 35, 48, 41, 34, 93, 59, 10, 32, 32, 34, 48, 34, 32, 45, 62, 32, 34, 51, 34, 32, 91,
+    108, 97, 98, 101, 108, 61, 34, 91, 97, 45, 122, 93, 32, 40, 67, 35, 49, 48, 41, 34, 93, 59, 10,
+    32, 32, 34, 49, 34, 32, 45, 62, 32, 34, 50, 34, 32, 91, 108, 97, 98, 101, 108, 61, 34, 92, 34,
+    32, 40, 67, 35, 51, 41, 34, 93, 59, 10, 32, 32, 34, 51, 34, 32, 45, 62, 32, 34, 52, 34, 32, 91,
     108, 97, 98, 101, 108, 61, 34, 92, 92, 32, 40, 67, 35, 50, 41, 34, 93, 59, 10, 32, 32, 34, 51,
     34, 32, 45, 62, 32, 34, 51, 34, 32, 91, 108, 97, 98, 101, 108, 61, 34, 97, 32, 40, 67, 35, 48,
     41, 34, 93, 59, 10, 32, 32, 115, 117, 98, 103, 114, 97, 112, 104, 32, 99, 108, 117, 115, 116,
@@ -1063,7 +1280,7 @@ def exText : List Nat := [
 
 def exDoc : DotDoc :=
   { main := { nodes := [⟨0, 1, 0⟩, ⟨1, 0, 0⟩, ⟨2, 2, 7⟩, ⟨3, 0, 0⟩, ⟨4, 2, 12⟩],
-              edges := [⟨0, 1, 0⟩, ⟨1, 2, 3⟩, ⟨0, 3, 10⟩, ⟨3, 4, 2⟩, ⟨3, 3, 0⟩] },
+              edges := [⟨0, 1, 0⟩, ⟨0, 3, 10⟩, ⟨1, 2, 3⟩, ⟨3, 4, 2⟩, ⟨3, 3, 0⟩] },
     clusters := [⟨7, true, { nodes := [⟨0, 1, 0⟩, ⟨1, 2, 0⟩], edges := [⟨0, 1, 0⟩] }⟩] }
 
 /-- `M: a|b...` -/
@@ -1100,10 +1317,11 @@ example : (parseDot (renderDot exTitle exEdgeText exDoc)).bind decodeDot = some 
         · decide
         · split <;> decide)
 
-/-! ## Restyled files still decode
+/-! ## Restyled and rewritten files still decode
 
 `decodeDot` reads the kind of a node from its label and number only and ignores every other
-attribute and every graph-level statement other than `label`. -/
+attribute and every graph-level statement other than `label`; `parseDot` accepts the DOT grammar,
+not only the layout of the crate's writer. -/
 
 /-- `exText` restyled: other colours, `shape=doublecircle` on accepting nodes, an extra
     `fontname="Helvetica"` on the nodes, `fontsize=10;` graph statements.
@@ -1118,8 +1336,8 @@ digraph {
   "3" [label="3", fontname="Helvetica"];
   "4" [shape=doublecircle, color=black, fontname="Helvetica", label="4 T12"];
   "0" -> "1" [label="a (C#0)"];
-  "1" -> "2" [label="\" (C#3)"];
   "0" -> "3" [label="[a-z] (C#10)"];
+  "1" -> "2" [label="\" (C#3)"];
   "3" -> "4" [label="\\ (C#2)"];
   "3" -> "3" [label="a (C#0)"];
   subgraph cluster_0 {
@@ -1151,10 +1369,10 @@ def exRestyledText : List Nat := [
     32, 102, 111, 110, 116, 110, 97, 109, 101, 61, 34, 72, 101, 108, 118, 101, 116, 105, 99, 97,
     34, 44, 32, 108, 97, 98, 101, 108, 61, 34, 52, 32, 84, 49, 50, 34, 93, 59, 10, 32, 32, 34, 48,
     34, 32, 45, 62, 32, 34, 49, 34, 32, 91, 108, 97, 98, 101, 108, 61, 34, 97, 32, 40, 67, 35, 48,
-    41, 34, 93, 59, 10, 32, 32, 34, 49, 34, 32, 45, 62, 32, 34, 50, 34, 32, 91, 108, 97, 98, 101,
-    108, 61, 34, 92, 34, 32, 40, 67, 35, 51, 41, 34, 93, 59, 10, 32, 32, 34, 48, 34, 32, 45, 62,
-    32, 34, 51, 34, 32, 91, 108, 97, 98, 101, 108, 61, 34, 91, 97, 45, 122, 93, 32, 40, 67, 35, 49,
-    48, 41, 34, 93, 59, 10, 32, 32, 34, 51, 34, 32, 45, 62, 32, 34, 52, 34, 32, 91, 108, 97, 98,
+    41, 34, 93, 59, 10, 32, 32, 34, 48, 34, 32, 45, 62, 32, 34, 51, 34, 32, 91, 108, 97, 98, 101,
+    108, 61, 34, 91, 97, 45, 122, 93, 32, 40, 67, 35, 49, 48, 41, 34, 93, 59, 10, 32, 32, 34, 49,
+    34, 32, 45, 62, 32, 34, 50, 34, 32, 91, 108, 97, 98, 101, 108, 61, 34, 92, 34, 32, 40, 67, 35,
+    51, 41, 34, 93, 59, 10, 32, 32, 34, 51, 34, 32, 45, 62, 32, 34, 52, 34, 32, 91, 108, 97, 98,
     101, 108, 61, 34, 92, 92, 32, 40, 67, 35, 50, 41, 34, 93, 59, 10, 32, 32, 34, 51, 34, 32, 45,
     62, 32, 34, 51, 34, 32, 91, 108, 97, 98, 101, 108, 61, 34, 97, 32, 40, 67, 35, 48, 41, 34, 93,
     59, 10, 32, 32, 115, 117, 98, 103, 114, 97, 112, 104, 32, 99, 108, 117, 115, 116, 101, 114, 95,
@@ -1189,8 +1407,8 @@ digraph {
   "3" [label="3"];
   "4" [label="4 T12"];
   "0" -> "1" [color=grey, label="a (C#0)"];
-  "1" -> "2" [label="\" (C#3)"];
   "0" -> "3" [label="[a-z] (C#10)", fontsize=8];
+  "1" -> "2" [label="\" (C#3)"];
   "3" -> "4" [label="\\ (C#2)"];
   "3" -> "3" [label="a (C#0)"];
   subgraph cluster_0 {
@@ -1217,15 +1435,15 @@ def exDefaultsText : List Nat := [
     32, 34, 52, 34, 32, 91, 108, 97, 98, 101, 108, 61, 34, 52, 32, 84, 49, 50, 34, 93, 59, 10, 32,
     32, 34, 48, 34, 32, 45, 62, 32, 34, 49, 34, 32, 91, 99, 111, 108, 111, 114, 61, 103, 114, 101,
     121, 44, 32, 108, 97, 98, 101, 108, 61, 34, 97, 32, 40, 67, 35, 48, 41, 34, 93, 59, 10, 32, 32,
-    34, 49, 34, 32, 45, 62, 32, 34, 50, 34, 32, 91, 108, 97, 98, 101, 108, 61, 34, 92, 34, 32, 40,
-    67, 35, 51, 41, 34, 93, 59, 10, 32, 32, 34, 48, 34, 32, 45, 62, 32, 34, 51, 34, 32, 91, 108,
-    97, 98, 101, 108, 61, 34, 91, 97, 45, 122, 93, 32, 40, 67, 35, 49, 48, 41, 34, 44, 32, 102,
-    111, 110, 116, 115, 105, 122, 101, 61, 56, 93, 59, 10, 32, 32, 34, 51, 34, 32, 45, 62, 32, 34,
-    52, 34, 32, 91, 108, 97, 98, 101, 108, 61, 34, 92, 92, 32, 40, 67, 35, 50, 41, 34, 93, 59, 10,
-    32, 32, 34, 51, 34, 32, 45, 62, 32, 34, 51, 34, 32, 91, 108, 97, 98, 101, 108, 61, 34, 97, 32,
-    40, 67, 35, 48, 41, 34, 93, 59, 10, 32, 32, 115, 117, 98, 103, 114, 97, 112, 104, 32, 99, 108,
-    117, 115, 116, 101, 114, 95, 48, 32, 123, 10, 32, 32, 32, 32, 115, 116, 121, 108, 101, 61, 100,
-    97, 115, 104, 101, 100, 59, 10, 32, 32, 32, 32, 108, 97, 98, 101, 108, 61, 34, 76, 65, 32, 102,
+    34, 48, 34, 32, 45, 62, 32, 34, 51, 34, 32, 91, 108, 97, 98, 101, 108, 61, 34, 91, 97, 45, 122,
+    93, 32, 40, 67, 35, 49, 48, 41, 34, 44, 32, 102, 111, 110, 116, 115, 105, 122, 101, 61, 56, 93,
+    59, 10, 32, 32, 34, 49, 34, 32, 45, 62, 32, 34, 50, 34, 32, 91, 108, 97, 98, 101, 108, 61, 34,
+    92, 34, 32, 40, 67, 35, 51, 41, 34, 93, 59, 10, 32, 32, 34, 51, 34, 32, 45, 62, 32, 34, 52, 34,
+    32, 91, 108, 97, 98, 101, 108, 61, 34, 92, 92, 32, 40, 67, 35, 50, 41, 34, 93, 59, 10, 32, 32,
+    34, 51, 34, 32, 45, 62, 32, 34, 51, 34, 32, 91, 108, 97, 98, 101, 108, 61, 34, 97, 32, 40, 67,
+    35, 48, 41, 34, 93, 59, 10, 32, 32, 115, 117, 98, 103, 114, 97, 112, 104, 32, 99, 108, 117,
+    115, 116, 101, 114, 95, 48, 32, 123, 10, 32, 32, 32, 32, 115, 116, 121, 108, 101, 61, 100, 97,
+    115, 104, 101, 100, 59, 10, 32, 32, 32, 32, 108, 97, 98, 101, 108, 61, 34, 76, 65, 32, 102,
     111, 114, 32, 84, 55, 40, 80, 111, 115, 41, 34, 59, 10, 32, 32, 32, 32, 110, 111, 100, 101, 32,
     91, 115, 104, 97, 112, 101, 61, 98, 111, 120, 93, 59, 10, 32, 32, 32, 32, 34, 55, 95, 48, 34,
     32, 91, 108, 97, 98, 101, 108, 61, 34, 48, 34, 93, 59, 10, 32, 32, 32, 32, 34, 55, 95, 49, 34,
@@ -1236,6 +1454,80 @@ def exDefaultsText : List Nat := [
 
 set_option maxRecDepth 20000 in
 theorem exDefaults_decodes : (parseDot exDefaultsText).bind decodeDot = some exDoc := by decide
+
+/-- The same document as another DOT writer would put it: a leading `/* ... */` comment over two
+    lines, `digraph scnr_compiled_automaton {`, tabs for indentation, `graph [rankdir = LR];`,
+    blanks around every `=`, `// ...` comment lines, every node statement directly followed by its
+    outgoing edges, no semicolon after some statements, the cluster named
+    `cluster_lookahead_7` and placed before the main nodes.
+```
+/* header: compiled automaton of mode M
+   (written by another DOT writer) */
+digraph scnr_compiled_automaton {
+	graph [rankdir = LR];
+	label = "M: a|b...";
+	subgraph cluster_lookahead_7 {
+		label = "LA for T7(Pos)"
+		// 2 states
+		"7_0" [shape = circle, color = blue, penwidth = 3, label = "0"];
+		"7_0" -> "7_1" [label = "a (C#0)"];
+		"7_1" [shape = circle, color = red, penwidth = 3, label = "1 T0"];
+	}
+	// 5 states
+	"0" [shape = circle, color = blue, penwidth = 3, label = "0"];
+	"0" -> "1" [label = "a (C#0)"];
+	"0" -> "3" [label = "[a-z] (C#10)"]
+	"1" [label = "1"]
+	"1" -> "2" [label = "\" (C#3)"];
+	"2" [shape = circle, color = red, penwidth = 3, label = "2 T7"];
+	"3" [label = "3"];
+	"3" -> "4" [label = "\\ (C#2)"]
+	"3" -> "3" [label = "a (C#0)"];
+	"4" [shape = circle, color = red, penwidth = 3, label = "4 T12"]
+}
+``` -/
+def exRewrittenText : List Nat := [
+    47, 42, 32, 104, 101, 97, 100, 101, 114, 58, 32, 99, 111, 109, 112, 105, 108, 101, 100, 32, 97,
+    117, 116, 111, 109, 97, 116, 111, 110, 32, 111, 102, 32, 109, 111, 100, 101, 32, 77, 10, 32,
+    32, 32, 40, 119, 114, 105, 116, 116, 101, 110, 32, 98, 121, 32, 97, 110, 111, 116, 104, 101,
+    114, 32, 68, 79, 84, 32, 119, 114, 105, 116, 101, 114, 41, 32, 42, 47, 10, 100, 105, 103, 114,
+    97, 112, 104, 32, 115, 99, 110, 114, 95, 99, 111, 109, 112, 105, 108, 101, 100, 95, 97, 117,
+    116, 111, 109, 97, 116, 111, 110, 32, 123, 10, 9, 103, 114, 97, 112, 104, 32, 91, 114, 97, 110,
+    107, 100, 105, 114, 32, 61, 32, 76, 82, 93, 59, 10, 9, 108, 97, 98, 101, 108, 32, 61, 32, 34,
+    77, 58, 32, 97, 124, 98, 46, 46, 46, 34, 59, 10, 9, 115, 117, 98, 103, 114, 97, 112, 104, 32,
+    99, 108, 117, 115, 116, 101, 114, 95, 108, 111, 111, 107, 97, 104, 101, 97, 100, 95, 55, 32,
+    123, 10, 9, 9, 108, 97, 98, 101, 108, 32, 61, 32, 34, 76, 65, 32, 102, 111, 114, 32, 84, 55,
+    40, 80, 111, 115, 41, 34, 10, 9, 9, 47, 47, 32, 50, 32, 115, 116, 97, 116, 101, 115, 10, 9, 9,
+    34, 55, 95, 48, 34, 32, 91, 115, 104, 97, 112, 101, 32, 61, 32, 99, 105, 114, 99, 108, 101, 44,
+    32, 99, 111, 108, 111, 114, 32, 61, 32, 98, 108, 117, 101, 44, 32, 112, 101, 110, 119, 105,
+    100, 116, 104, 32, 61, 32, 51, 44, 32, 108, 97, 98, 101, 108, 32, 61, 32, 34, 48, 34, 93, 59,
+    10, 9, 9, 34, 55, 95, 48, 34, 32, 45, 62, 32, 34, 55, 95, 49, 34, 32, 91, 108, 97, 98, 101,
+    108, 32, 61, 32, 34, 97, 32, 40, 67, 35, 48, 41, 34, 93, 59, 10, 9, 9, 34, 55, 95, 49, 34, 32,
+    91, 115, 104, 97, 112, 101, 32, 61, 32, 99, 105, 114, 99, 108, 101, 44, 32, 99, 111, 108, 111,
+    114, 32, 61, 32, 114, 101, 100, 44, 32, 112, 101, 110, 119, 105, 100, 116, 104, 32, 61, 32, 51,
+    44, 32, 108, 97, 98, 101, 108, 32, 61, 32, 34, 49, 32, 84, 48, 34, 93, 59, 10, 9, 125, 10, 9,
+    47, 47, 32, 53, 32, 115, 116, 97, 116, 101, 115, 10, 9, 34, 48, 34, 32, 91, 115, 104, 97, 112,
+    101, 32, 61, 32, 99, 105, 114, 99, 108, 101, 44, 32, 99, 111, 108, 111, 114, 32, 61, 32, 98,
+    108, 117, 101, 44, 32, 112, 101, 110, 119, 105, 100, 116, 104, 32, 61, 32, 51, 44, 32, 108, 97,
+    98, 101, 108, 32, 61, 32, 34, 48, 34, 93, 59, 10, 9, 34, 48, 34, 32, 45, 62, 32, 34, 49, 34,
+    32, 91, 108, 97, 98, 101, 108, 32, 61, 32, 34, 97, 32, 40, 67, 35, 48, 41, 34, 93, 59, 10, 9,
+    34, 48, 34, 32, 45, 62, 32, 34, 51, 34, 32, 91, 108, 97, 98, 101, 108, 32, 61, 32, 34, 91, 97,
+    45, 122, 93, 32, 40, 67, 35, 49, 48, 41, 34, 93, 10, 9, 34, 49, 34, 32, 91, 108, 97, 98, 101,
+    108, 32, 61, 32, 34, 49, 34, 93, 10, 9, 34, 49, 34, 32, 45, 62, 32, 34, 50, 34, 32, 91, 108,
+    97, 98, 101, 108, 32, 61, 32, 34, 92, 34, 32, 40, 67, 35, 51, 41, 34, 93, 59, 10, 9, 34, 50,
+    34, 32, 91, 115, 104, 97, 112, 101, 32, 61, 32, 99, 105, 114, 99, 108, 101, 44, 32, 99, 111,
+    108, 111, 114, 32, 61, 32, 114, 101, 100, 44, 32, 112, 101, 110, 119, 105, 100, 116, 104, 32,
+    61, 32, 51, 44, 32, 108, 97, 98, 101, 108, 32, 61, 32, 34, 50, 32, 84, 55, 34, 93, 59, 10, 9,
+    34, 51, 34, 32, 91, 108, 97, 98, 101, 108, 32, 61, 32, 34, 51, 34, 93, 59, 10, 9, 34, 51, 34,
+    32, 45, 62, 32, 34, 52, 34, 32, 91, 108, 97, 98, 101, 108, 32, 61, 32, 34, 92, 92, 32, 40, 67,
+    35, 50, 41, 34, 93, 10, 9, 34, 51, 34, 32, 45, 62, 32, 34, 51, 34, 32, 91, 108, 97, 98, 101,
+    108, 32, 61, 32, 34, 97, 32, 40, 67, 35, 48, 41, 34, 93, 59, 10, 9, 34, 52, 34, 32, 91, 115,
+    104, 97, 112, 101, 32, 61, 32, 99, 105, 114, 99, 108, 101, 44, 32, 99, 111, 108, 111, 114, 32,
+    61, 32, 114, 101, 100, 44, 32, 112, 101, 110, 119, 105, 100, 116, 104, 32, 61, 32, 51, 44, 32,
+    108, 97, 98, 101, 108, 32, 61, 32, 34, 52, 32, 84, 49, 50, 34, 93, 10, 125, 10]
+
+set_option maxRecDepth 20000 in
+theorem exRewritten_decodes : (parseDot exRewrittenText).bind decodeDot = some exDoc := by decide
 
 /-- What is not cosmetic is still checked: each of these texts is well-formed (it parses) but does
     not decode. -/
@@ -1336,77 +1628,81 @@ theorem example1_renders : renderDot example1Title example1EdgeText example1Doc 
 
 /-! ## The fuel of the parser is never the reason for a verdict -/
 
-theorem pAttrs_len (ts : List DTok) : ∀ as r, pAttrs ts = some (as, r) → r.length < ts.length := by
-  fun_induction pAttrs ts <;> intro as r h <;> simp_all <;> (try omega)
+theorem consAttr_some {kv x as r} (h : consAttr kv x = some (as, r)) : ∃ as', x = some (as', r) := by
+  cases x with
+  | none => simp [consAttr] at h
+  | some p => obtain ⟨a, b⟩ := p; simp [consAttr] at h; exact ⟨a, by rw [h.2]⟩
+
+theorem pAList_len (sep : Bool) (ts : List DTok) : ∀ as r, pAList sep ts = some (as, r) → r.length < ts.length := by
+  fun_induction pAList sep ts <;> intro as r h <;> simp_all <;> (try omega)
+  rename_i ih
+  obtain ⟨as', h'⟩ := consAttr_some h
+  have := ih _ _ h'
+  omega
 
 theorem pOptAttrs_len (ts : List DTok) (as r) (h : pOptAttrs ts = some (as, r)) : r.length ≤ ts.length := by
   unfold pOptAttrs at h
   split at h
-  · have := pAttrs_len _ _ _ h; simp; omega
+  · have := pAList_len _ _ _ _ h; simp; omega
   · simp at h; rw [← h.2]; omega
 
-theorem pAttrsSemi_len (ts : List DTok) (as r) (h : pAttrsSemi ts = some (as, r)) : r.length < ts.length := by
-  unfold pAttrsSemi at h
-  split at h
-  · rename_i as' r' heq
-    have := pOptAttrs_len _ _ _ heq
-    simp at h this; rw [← h.2]; omega
-  · simp at h
+theorem pTargets_len (ts : List DTok) : ∀ bs r, pTargets ts = some (bs, r) → r.length ≤ ts.length := by
+  fun_induction pTargets ts <;> intro bs r h <;> simp_all <;> (try omega)
 
-theorem pAttrStmt_len (k : List Nat) (ts : List DTok) (st r) (h : pAttrStmt k ts = some (st, r)) :
-    r.length < ts.length := by
-  unfold pAttrStmt at h
+theorem pNamed_len (a : List Nat) (ts : List DTok) (sts r) (h : pNamed a ts = some (sts, r)) :
+    r.length ≤ ts.length := by
+  unfold pNamed at h
   split at h
   · split at h
     · simp at h; rw [← h.2]; simp; omega
     · simp at h
-  · simp at h
+  · split at h
+    · simp at h
+    · rename_i bs r1 h1
+      have l1 := pTargets_len _ _ _ h1
+      split at h
+      · simp at h
+      · rename_i as r2 h2
+        have l2 := pOptAttrs_len _ _ _ h2
+        simp at h; rw [← h.2]; omega
 
-theorem pDfltStmt_len (k : List Nat) (ts : List DTok) (st r) (h : pDfltStmt k ts = some (st, r)) :
+theorem pDflt_len (w : List Nat) (ts : List DTok) (sts r) (h : pDflt w ts = some (sts, r)) :
     r.length < ts.length := by
-  unfold pDfltStmt at h
+  unfold pDflt at h
   split at h
   · split at h
     · rename_i heq
-      have := pAttrs_len _ _ _ heq
-      simp at h this; rw [← h.2]; simp; omega
-    · simp at h
-  · simp at h
-
-theorem pIdStmt_len (k : List Nat) (ts : List DTok) (st r) (h : pIdStmt k ts = some (st, r)) :
-    r.length < ts.length := by
-  unfold pIdStmt at h
-  split at h
-  · rename_i x heq
-    simp at h; subst h
-    exact pAttrStmt_len _ _ _ _ heq
-  · split at h
-    · exact pDfltStmt_len _ _ _ _ h
-    · simp at h
-
-theorem pStrStmt_len (name : List Nat) (ts : List DTok) (st r) (h : pStrStmt name ts = some (st, r)) :
-    r.length < ts.length := by
-  unfold pStrStmt at h
-  split at h
-  · split at h
-    · rename_i heq
-      have := pAttrsSemi_len _ _ _ heq
+      have := pAList_len _ _ _ _ heq
       simp at h; rw [← h.2]; simp; omega
     · simp at h
   · simp at h
-  · split at h
-    · rename_i heq
-      have := pAttrsSemi_len _ _ _ heq
-      simp at h; rw [← h.2]; omega
-    · simp at h
 
-theorem pClusterHead_len (ts : List DTok) (n r) (h : pClusterHead ts = some (n, r)) : r.length < ts.length := by
-  unfold pClusterHead at h
+theorem pSimple_len (t : DTok) (ts : List DTok) (sts r) (h : pSimple t ts = some (sts, r)) :
+    r.length ≤ ts.length := by
+  unfold pSimple at h
   split at h
+  · split at h
+    · have := pDflt_len _ _ _ _ h; omega
+    · split at h
+      · simp at h
+      · exact pNamed_len _ _ _ _ h
+  · exact pNamed_len _ _ _ _ h
+  · simp at h
+
+theorem pSubHead_len (ts : List DTok) (n r) (h : pSubHead ts = some (n, r)) : r.length < ts.length := by
+  unfold pSubHead at h
+  split at h
+  · simp at h; rw [← h.2]; simp
   · split at h
     · simp at h; rw [← h.2]; simp; omega
     · simp at h
   · simp at h
+
+theorem dropSemi_len (ts : List DTok) : (dropSemi ts).length ≤ ts.length := by
+  unfold dropSemi
+  split
+  · simp
+  · omega
 
 theorem pStmts_len : ∀ (f : Nat) (ts : List DTok) ss r, pStmts f ts = some (ss, r) → r.length < ts.length := by
   intro f
@@ -1417,19 +1713,29 @@ theorem pStmts_len : ∀ (f : Nat) (ts : List DTok) ss r, pStmts f ts = some (ss
     cases ts with
     | nil => simp [pStmts] at h
     | cons t rest =>
-      cases t with
-      | rbrace => simp [pStmts] at h; rw [← h.2]; simp
-      | id s =>
-        simp only [pStmts] at h
-        split at h
+      simp only [pStmts] at h
+      split at h
+      · simp at h; rw [← h.2]; simp
+      · split at h
+        · simp at h
+        · rename_i body r2 h2
+          have l2 := ih _ _ _ h2
+          have := dropSemi_len r2
+          split at h
+          · simp at h
+          · rename_i ss' r3 h3
+            have l3 := ih _ _ _ h3
+            simp at h; rw [← h.2]; simp; omega
+      · split at h
         · split at h
           · simp at h
           · rename_i name r1 h1
-            have l1 := pClusterHead_len _ _ _ h1
+            have l1 := pSubHead_len _ _ _ h1
             split at h
             · simp at h
             · rename_i body r2 h2
               have l2 := ih _ _ _ h2
+              have := dropSemi_len r2
               split at h
               · simp at h
               · rename_i ss' r3 h3
@@ -1437,25 +1743,14 @@ theorem pStmts_len : ∀ (f : Nat) (ts : List DTok) ss r, pStmts f ts = some (ss
                 simp at h; rw [← h.2]; simp; omega
         · split at h
           · simp at h
-          · rename_i st r1 h1
-            have l1 := pIdStmt_len _ _ _ _ h1
+          · rename_i sts r1 h1
+            have l1 := pSimple_len _ _ _ _ h1
+            have := dropSemi_len r1
             split at h
             · simp at h
             · rename_i ss' r2 h2
               have l2 := ih _ _ _ h2
               simp at h; rw [← h.2]; simp; omega
-      | str name =>
-        simp only [pStmts] at h
-        split at h
-        · simp at h
-        · rename_i st r1 h1
-          have l1 := pStrStmt_len _ _ _ _ h1
-          split at h
-          · simp at h
-          · rename_i ss' r2 h2
-            have l2 := ih _ _ _ h2
-            simp at h; rw [← h.2]; simp; omega
-      | _ => simp [pStmts] at h
 
 /-- Fuel beyond the number of tokens changes nothing: the fuel of `parseToks` never makes the
     parser reject (or accept) anything. -/
@@ -1471,15 +1766,24 @@ theorem pStmts_fuel : ∀ (f : Nat) (ts : List DTok), ts.length < f → ∀ f', 
     | nil => rfl
     | cons t rest =>
       simp only [List.length_cons] at hlen
-      cases t with
-      | id s =>
-        simp only [pStmts]
-        split
-        · cases h1 : pClusterHead rest with
+      simp only [pStmts]
+      split
+      · rfl
+      · rw [ih rest (by omega) g hg]
+        cases h2 : pStmts f rest with
+        | none => rfl
+        | some q =>
+          obtain ⟨body, r2⟩ := q
+          have l2 := pStmts_len _ _ _ _ h2
+          have := dropSemi_len r2
+          simp only
+          rw [ih (dropSemi r2) (by omega) g hg]
+      · split
+        · cases h1 : pSubHead rest with
           | none => rfl
           | some p =>
             obtain ⟨name, r1⟩ := p
-            have l1 := pClusterHead_len _ _ _ h1
+            have l1 := pSubHead_len _ _ _ h1
             simp only
             rw [ih r1 (by omega) g hg]
             cases h2 : pStmts f r1 with
@@ -1487,29 +1791,21 @@ theorem pStmts_fuel : ∀ (f : Nat) (ts : List DTok), ts.length < f → ∀ f', 
             | some q =>
               obtain ⟨body, r2⟩ := q
               have l2 := pStmts_len _ _ _ _ h2
+              have := dropSemi_len r2
               simp only
-              rw [ih r2 (by omega) g hg]
-        · cases h1 : pIdStmt s rest with
+              rw [ih (dropSemi r2) (by omega) g hg]
+        · cases h1 : pSimple t rest with
           | none => rfl
           | some p =>
-            obtain ⟨st, r1⟩ := p
-            have l1 := pIdStmt_len _ _ _ _ h1
+            obtain ⟨sts, r1⟩ := p
+            have l1 := pSimple_len _ _ _ _ h1
+            have := dropSemi_len r1
             simp only
-            rw [ih r1 (by omega) g hg]
-      | str name =>
-        simp only [pStmts]
-        cases h1 : pStrStmt name rest with
-        | none => rfl
-        | some p =>
-          obtain ⟨st, r1⟩ := p
-          have l1 := pStrStmt_len _ _ _ _ h1
-          simp only
-          rw [ih r1 (by omega) g hg]
-      | _ => rfl
+            rw [ih (dropSemi r1) (by omega) g hg]
 
 
-/-- `parseToks` runs `pStmts` with `r.length + 2` units of fuel; any larger amount gives the same
-    result, so the parser behaves like the unbounded recursion of `P::body`. -/
+/-- `parseBody` runs `pStmts` with `r.length + 2` units of fuel; any larger amount gives the same
+    result, so the parser behaves like an unbounded recursive descent. -/
 theorem parseToks_fuel (r : List DTok) (extra : Nat) :
     pStmts (r.length + 2 + extra) r = pStmts (r.length + 2) r :=
   pStmts_fuel (r.length + 2) r (by omega) _ (by omega)
@@ -1554,6 +1850,7 @@ theorem keywords_spelled :
     kwRankdir = cps "rankdir" ∧ kwLR = cps "LR" ∧ kwClassOpen = cps " (C#" ∧ kwLaFor = cps "LA for T" ∧
     kwPos = cps "Pos)" ∧ kwNeg = cps "Neg)" ∧
     kwNode = cps "node" ∧ kwEdge = cps "edge" ∧ kwGraph = cps "graph" ∧
+    kwStrict = cps "strict" ∧ kwCluster = cps "cluster" ∧
     txtShapeColor = cps "shape=circle, color=" ∧ txtPenLabel = cps ", penwidth=3, label=" ∧
     txtLabelEq = cps "label=" ∧ ind2 = cps "  " ∧ ind4 = cps "    " ∧
     exTitle = cps "M: a|b..." := by
